@@ -1,5 +1,5 @@
-CONSTANTS Alphabet <- AIncl
- MaxLen = 3
+CONSTANTS Families = {"incl"}
+ Family <- QuickFamily
  MaxSects = 2
  MaxDepth = 2
  Fixed = {}
